@@ -14,7 +14,7 @@ CLAIMS = {
         'correctly iff no positional argument stands behind it, which is exactly when the insertion guard passes; the guard of args / bases slice edits passes iff everything the edit touches lies in '
         'front of the first keyword, where argument index = merged index (both tied by correspondence in the split-fields sweep). One element that needs its own parentheses stays ONE element '
         'through every single-element and one-element-slice entry point (deterministic sweep). '
-        'Handler glue is not proved (cross-check only). Deterministic sweeps: removal of every dispensable clause under every norm option and entry point; arguments._all with / and * markers x every window x new arguments of every category (category-sensitive), keyword-only defaults. Proved as well: the `/` and `*` markers re-derived from the categories of a parameter list make Python read every parameter in its category (models/ArgMarkers.v, tied to the text real put_slice writes).',
+        'Handler glue is not proved (cross-check only). Deterministic sweeps: removal of every dispensable clause under every norm option and entry point; arguments._all with / and * markers x every window x new arguments of every category (category-sensitive), keyword-only defaults. Proved as well: the `/` and `*` markers re-derived from the categories of a parameter list make Python read every parameter in its category (models/ArgMarkers.v, tied to the text real put_slice writes). Also: optional single-node fields next to parenthesized neighbours through every entry point; operands glued to the keyword behind them replaced by multi-line code.',
    note='Trusted: Coq kernel/vm_compute; py/py2v translator; CPython ast as reference; the view model is hand-written (tied by correspondence); '
         'refusal allow-list py/props/C03_refusals_allow.json. No axioms.',
    design='DESIGN.md section 4 C03'),
@@ -35,7 +35,7 @@ CLAIMS = {
         'replacement all surviving nodes end at mode_map and the new sub-tree lands rigidly (C01_frame_expr_replace). Partial: the element part for separator lists / statement '
         'blocks and handler glue are not modelled - they are decided by the oracle: after every successful op of random edit sequences (all public entry points, three code forms, '
         'random options with norm=True) the source is re-parsed by CPython and compared in types, fields, ctx and all positions. Trace correspondence replays sampled _offset/_put_src '
-        'calls of those edits on the Coq models. par() / unpar() on every expression and pattern node keep the tree equal to the parse of its source (AnnAssign.simple, annotation targets, nodes that cannot take parentheses).',
+        'calls of those edits on the Coq models. par() / unpar() on every expression and pattern node keep the tree equal to the parse of its source (AnnAssign.simple, annotation targets, nodes that cannot take parentheses). Also: slices re-indented line by line with per-line column offsets; try handlers removed one by one through every entry point.',
    note='Trusted: Coq kernel/vm_compute; translators; CPython ast (OH1); hand models tied by (trace) correspondence; known_findings.json lists one open finding class (arglike positional after keyword).',
    design='DESIGN.md section 4 C01'),
  'C12': dict(
@@ -44,7 +44,7 @@ CLAIMS = {
         'a refused enter changes nothing; the next edit of any node is admitted; every _modifying call site in the regenerated site list is a with-item or the guarded manual protocol. '
         'Partial: validate-before-mutate inside handlers is not modelled - decided by fault sequences: 15 kinds of invalid request interleaved with valid edits; after each raising '
         'call source and ast.dump(include_attributes) must be identical and the registry empty; later edits must re-parse to themselves; deterministic sweeps over option values, '
-        'falsy codes, evaluation order and the ROOT as target (consumed / non-root / unparsable code).',
+        'falsy codes, evaluation order and the ROOT as target (consumed / non-root / unparsable code). Also: one element of every list field replaced by code a rule of the container may reject, through every one-element entry point.',
    note='Trusted: Coq kernel/vm_compute; py2v/gen_modsites scanner; hand model Registry.v tied to the real class by correspondence; CPython ast.dump as observer. No axioms.',
    design='DESIGN.md section 4 C12'),
  'C20': dict(
@@ -75,7 +75,7 @@ CLAIMS = {
         'parentheses wherever the hand-written Python-grammar requirement says a bare child would not parse back into the slot (C09_table_adequate), the function is total there, '
         'and associativity is encoded correctly. Partial: no Gallina parser/round-trip proof was built - the grammar spec is instead validated on every run against ast.parse on '
         'its whole finite domain (OH2), and the complete chain is cross-checked through real replaces (every slot x child kind x bare/parenthesised/multi-line/comment layout x '
-        'source/FST/AST form) plus put-back of children that need their parentheses. Line-structure enclosure and atom analysis are covered only by that oracle. Special slots also with non-ASCII text before the operand, a second put of the slot just filled, unenclosed slots with line-breaking replacements, assignment / deletion target slots (non-targets refused, never written).',
+        'source/FST/AST form) plus put-back of children that need their parentheses. Line-structure enclosure and atom analysis are covered only by that oracle. Special slots also with non-ASCII text before the operand, a second put of the slot just filled, unenclosed slots with line-breaking replacements, assignment / deletion target slots (non-targets refused, never written). Also: bases of annotation targets behind attribute / subscript chains; brace-leading replacements right behind the brace of an f-string field.',
    note='Trusted: Coq kernel/vm_compute; py2v/gen_prec; hand spec PyGrammar.v (validated vs CPython each run); canonical examples in py/lib/slots.py; CPython ast. No axioms.',
    design='DESIGN.md section 4 C09'),
  'C04': dict(
@@ -113,7 +113,7 @@ CLAIMS = {
         'sound for the regular language of the nested pattern, completeness REFUTED by the witness (?:b.?b)?b on bbb, complete for deterministic repetitions, exact and equal to the flat model on flat '
         'patterns; tied by correspondence to the real matcher (accept/reject + length of every repetition) and to re with atomic groups (?>...). A history stage reuses one pattern object over '
         'sequences of targets (match / search / pure AST) against fresh pattern objects. A field sweep builds, for every field of every node of 40 programs, the pattern of the node\'s own value '
-        '(plain and inside M / MOR / MAND / MNOT(MNOT)), one-element variants that must not match, and back-references to the captured field, on the formatted tree and the pure AST alike. search() in every walk mode event by event with the tags of each match; back-reference families with two quantifiers before the reference; type patterns per field on the formatted tree and the pure AST.',
+        '(plain and inside M / MOR / MAND / MNOT(MNOT)), one-element variants that must not match, and back-references to the captured field, on the formatted tree and the pure AST alike. search() in every walk mode event by event with the tags of each match; back-reference families with two quantifiers before the reference; type patterns per field on the formatted tree and the pure AST. Also: repetitions that may be empty under a quantifier with a minimum; back-references between nodes of different classes with the same text; expression contexts and primitive types as search patterns.',
    note='Trusted: Coq kernel/vm_compute; hand models Match.v and MatchNested.v tied by correspondence; Python re (with atomic groups for nested repetitions) as reference for quantifier sequences (OH3). No axioms.',
    design='DESIGN.md section 4 C17'),
  'C06': dict(
@@ -150,7 +150,7 @@ CLAIMS = {
         'the delimiter guard accepts exactly the texts without an over-closing prefix, an accepted balanced fragment leaves the wrapper opener to be closed right after it, a refused one would have '
         'closed it inside. Partial: CPython itself, the per-mode wrapper choice and the non-delimiter guards are decided by the oracle: 24 extended modes + operators + whole programs; fragments from '
         'the corpus, re-laid-out, non-ASCII, and hostile (wrapper-closing text, wrong counts, splices); validity and the expected sub-tree come from embeddings written for the check (construct '
-        'around the hole unchanged, all fragment tokens inside the element). Four wrapper-induced misparses found this way were repaired in /repo. The default mode \'all\' is held to python\'s tree for every source python parses (and to the mode of its result for fragments); the acceptance of a trailing comma may not depend on its layout.',
+        'around the hole unchanged, all fragment tokens inside the element). Four wrapper-induced misparses found this way were repaired in /repo. The default mode \'all\' is held to python\'s tree for every source python parses (and to the mode of its result for fragments); the acceptance of a trailing comma may not depend on its layout. The embedding judge also refuses text that continues the wrapper iterable; a naked sequence starts at the fragment\'s first token.',
    note='Trusted: Coq kernel/vm_compute; hand model Wrap.v tied by correspondence; CPython ast.parse and tokenize as reference; the EMB embedding table of py/props/C05.py as the definition of "full construct". No axioms.',
    design='DESIGN.md section 4 C05'),
  'C10': dict(
@@ -169,7 +169,7 @@ CLAIMS = {
         'reconciling an unchanged tree performs zero puts and returns the mark with all formatting identities; an untouched child still in place under an in-tree parent is returned intact whatever '
         'happens to its siblings. Partial: the puts themselves, slice-copy provenance and comments are decided by the oracle: up to 3 mark/reconcile rounds with 0..5 pure-AST mutations (replace / swap / '
         'duplicate expressions, primitives, operators, statement insert / delete / replace / move / reverse / duplicate, foreign FST nodes, container resize); result must satisfy C01, equal the edited AST, '
-        'leave the source identical when nothing changed and keep text and comments of untouched top-level statements. One defect found (1 -> True not reconciled) was repaired in /repo. The loop of recurse_slice over an edited list (models/SliceReplay.v: maximal runs of consecutive source elements by one slice operation, in-place and pure elements alone, tail deleted) leaves exactly the edited list whatever the output held, and only recurses into an unchanged list (2 theorems, tied to the put_slice calls real reconcile() makes). Deterministic stages: primitive fields, foreign runs and nodes written in a form only their old home allows, Dict re-pairing, try clause counts.',
+        'leave the source identical when nothing changed and keep text and comments of untouched top-level statements. One defect found (1 -> True not reconciled) was repaired in /repo. The loop of recurse_slice over an edited list (models/SliceReplay.v: maximal runs of consecutive source elements by one slice operation, in-place and pure elements alone, tail deleted) leaves exactly the edited list whatever the output held, and only recurses into an unchanged list (2 theorems, tied to the put_slice calls real reconcile() makes). Deterministic stages: primitive fields, foreign runs and nodes written in a form only their old home allows, Dict re-pairing, try clause counts. Also: nodes taken from another tree whose own lists / fields were edited as well.',
    note='Trusted: Coq kernel/vm_compute; hand model Reconcile.v tied by correspondence of put counts on edits that do not move slice elements; ast.unparse/parse round trip as the definition of a valid edited tree; CPython parser. No axioms.',
    design='DESIGN.md section 4 C13'),
  'C15': dict(
@@ -180,7 +180,7 @@ CLAIMS = {
         'skips the children but not the leave (5 theorems, tied to the real generator under random send() decisions). Partial: termination, '
         'leave/both under mutation (deterministic resend sweep: replace + send(True) at every leaving yield, walk root included) and scope variants, search/sub consumers, legality of real replace/remove (evaluated on every observed heap) and the final C01 are decided by the oracle: random walks with replace/remove '
         'of the current node, ancestors and siblings and send(), checking no raise, bounded steps, attached-and-reachable yields, no double entry, new children next, final re-parse. One defect '
-        '(scope walk of comprehensions used stale nodes) and later ones (see known_findings.json fixed lines) were repaired in /repo. send(True) at entry yields (enter / both, recurse on / off, with a replacement first) is followed by the node\'s (new) children, the node once on leaving, then the reference continuation. Proved as well (models/WalkShallow.v): in a non-recursing both-walk send(True) at the entry yield of a child yields exactly its bracket. Deterministic: an optional single-node child removed while the walk stands in front of / inside it.',
+        '(scope walk of comprehensions used stale nodes) and later ones (see known_findings.json fixed lines) were repaired in /repo. send(True) at entry yields (enter / both, recurse on / off, with a replacement first) is followed by the node\'s (new) children, the node once on leaving, then the reference continuation. Proved as well (models/WalkShallow.v): in a non-recursing both-walk send(True) at the entry yield of a child yields exactly its bracket. Deterministic: an optional single-node child removed while the walk stands in front of / inside it. Also: the walk root of an inner walk (or an ancestor) removed / replaced while the walk stands below it.',
    note='Trusted: Coq kernel/vm_compute; hand model WalkMut.v tied by correspondence on heaps observed from the real objects (children order from astutil.syntax_ordered_children, checked in C14); CPython parser. No axioms.',
    design='DESIGN.md section 4 C15'),
  'C16': dict(
@@ -203,7 +203,7 @@ CLAIMS = {
         'counts on real trees are decided by the oracle: FST.subn vs a pure-AST reference for 16 scenarios x flat/nested on corpus and generated programs (C01, structure, counts, comments outside '
         'substituted nodes). Also proved (models/SubLoop.v, the driver loop over the match locations with count / loop / callback, tied by correspondence to the counts FST.subn reports): the reported '
         'pair is (locations substituted, substitutions performed) for every setting, every location takes at most what it can match and at most the same loop allowance, a count limit is respected. '
-        'Deterministic stages: statement templates, single vs slice slots of one template, __FSS_/__FSO_, loop with declining callbacks. A capture written into a slot INSIDE a string constant of the template (models/SlotEscape.v over the literal scanners of models/StrRepr.v) reads back as the capture\'s source in single- and triple-quoted strings of either quote kind (3 theorems, tied to the text real sub() writes). Deterministic sweeps: slot modes, ctx=True, several-statement templates, spliced whole matches with nested, interleaved captures. Quantifier captures over the merged virtual fields for every interleaving x window; slots inside f-string literal parts and bytes constants read back as the capture\'s source.',
+        'Deterministic stages: statement templates, single vs slice slots of one template, __FSS_/__FSO_, loop with declining callbacks. A capture written into a slot INSIDE a string constant of the template (models/SlotEscape.v over the literal scanners of models/StrRepr.v) reads back as the capture\'s source in single- and triple-quoted strings of either quote kind (3 theorems, tied to the text real sub() writes). Deterministic sweeps: slot modes, ctx=True, several-statement templates, spliced whole matches with nested, interleaved captures. Quantifier captures over the merged virtual fields for every interleaving x window; slots inside f-string literal parts and bytes constants read back as the capture\'s source. Also: negative count; loop= over statements replaced by several statements.',
    note='Trusted: Coq kernel/vm_compute; hand models Subst.v and SubLoop.v tied by correspondence; FST.match for the set of matching nodes (C17); ast.unparse/parse to decide that a reference result is a program. No axioms.',
    design='DESIGN.md section 4 C18'),
  'C19': dict(
